@@ -14,7 +14,7 @@ func vVersions(cfg *vHSConfig) {
 }
 
 func vAuthLen() int {
-	return [6]int{0, 1, 7, 498, 499, 600}[vIntRange("authlen_idx", 0, vParam("authlens", 5))]
+	return [7]int{0, 1, 7, 498, 499, 600, 70000}[vIntRange("authlen_idx", 0, vParam("authlens", 5))]
 }
 
 func vSamePW() ([]byte, []byte) {
